@@ -122,6 +122,10 @@ size_t item_group::clear(const metatype *ref)
 		return remove ? true : false;
 	}
 	long empty = 0;
+	/* entries may be shared with a copy of this group */
+	if (_items.length() && !_items.detach()) {
+		return 0;
+	}
 	for (auto &it : _items) {
 		metatype *curr = it.instance();
 		if (!curr) {
